@@ -41,6 +41,29 @@ Section Run.
     | r :: l' => rbind r (fun x => rbind (collect l') (fun xs => Ok (x :: xs)))
     end.
 
+  (* ---------- wide sparse (indices in Z) ---------- *)
+  (* from_evaluations: later duplicates win; kept sorted by index *)
+  Fixpoint wide_insert (i v : Z) (l : list (Z * Z)) : list (Z * Z) :=
+    match l with
+    | [] => [(i, v)]
+    | (j, w) :: r => if i =? j then (i, v) :: r else if i <? j then (i, v) :: l else (j, w) :: wide_insert i v r
+    end.
+  Fixpoint wide_build (idx vals : list Z) (acc : list (Z * Z)) : list (Z * Z) :=
+    match idx, vals with
+    | i :: idx', v :: vals' => wide_build idx' vals' (wide_insert i v acc)
+    | _, _ => acc
+    end.
+  Definition wide_entries (idx vals : list Z) : list (Z * Z) := wide_build idx vals [].
+  Definition wide_out (n : Z) (es : list (Z * Z)) : list (list Z) :=
+    let nz := filter (fun e => negb (snd e =? 0)) es in
+    ok [[n]; map fst nz; map snd nz].
+  (* eq(x, bits of i): prod_j (x_j if bit j of i else 1 - x_j) *)
+  Fixpoint wide_eq (x : list Z) (i : Z) (j : Z) : Z :=
+    match x with
+    | [] => f1 F
+    | xj :: x' => fmul F (if Z.testbit i j then xj else fsub F (f1 F) xj) (wide_eq x' i (j + 1))
+    end.
+
   (* ---------- sparse ---------- *)
   Definition sparse_in (a : list (list Z)) (i : nat) : res (smle Z) :=
     s_from (narg i a) (combine (nats (arg (S i) a)) (fes (arg (S (S i)) a))).
@@ -105,6 +128,23 @@ Section Run.
     | 28 => out sparse_out (rbind (sparse_in a 1) (fun x => rbind (sparse_in a 5) (fun y =>
               s_add_scaled F x (fe (arg0 4 a)) y)))
     | 29 => out val_out (rbind (sparse_in a 1) (fun s => Ok (s_index F s (narg 4 a))))
+    (* WIDE sparse extensions (more than 32 variables): hypercube indices are kept in Z, only the stored entries are
+       printed (the full table of such an arity cannot be materialised).  Specification-level model:
+       30 relabel = the entries with the two k-bit windows of every index swapped (Mle.swap_bits on Z), later duplicates win,
+       in key order; 31 evaluate = sum_i v_i * prod_j (x_j if bit j of i else 1 - x_j). *)
+    | 30 => let n := arg0 1 a in
+            let es := wide_entries (arg 2 a) (fes (arg 3 a)) in
+            let a0 := nth 0 (arg 4 a) 0 in let b0 := nth 1 (arg 4 a) 0 in let k := nth 2 (arg 4 a) 0 in
+            let lo := Z.min a0 b0 in let hi := Z.max a0 b0 in
+            if negb ((lo + k <=? n) && (hi + k <=? n)) then [[2]]
+            else if (lo =? hi) || (k =? 0) then wide_out n es
+            else if negb (lo + k <=? hi) then [[2]]
+            else wide_out n (wide_entries (map (fun e => swap_bits (fst e) lo hi k) es) (map snd es))
+    | 31 => let n := arg0 1 a in
+            let es := wide_entries (arg 2 a) (fes (arg 3 a)) in
+            let x := fes (arg 4 a) in
+            if negb (Z.of_nat (length x) =? n) then [[2]]
+            else ok [[fold_left (fun acc e => fadd F acc (fmul F (snd e) (wide_eq x (fst e) 0))) es (f0 F)]]
     (* multivariate *)
     | 40 => let t := term_new (combine (nats (arg 1 a)) (arg 2 a)) in
             ok [zs (t_vars t); t_powers t; [t_degree t]; [Z.b2z (t_is_constant t)]]
